@@ -40,7 +40,8 @@ VecOf(d, e) ==
   [tmin |-> d.tmin, tmax |-> d.tmax, zero |-> d.zero,
    hasmap |-> d.hasmap, map |-> d.map, hasvals |-> d.hasvals, vals |-> d.vals,
    hasdflt |-> e.hasdflt, dflt |-> e.dflt,
-   ctor |-> e.ctor, tv |-> e.tv, tb |-> e.tb, items |-> e.items]
+   ctor |-> e.ctor, tv |-> e.tv, tb |-> e.tb, items |-> e.items,
+   items2 |-> e.items2]
 
 SameQuals(d, a) ==
   /\ a.hasmap = d.hasmap /\ a.hasvals = d.hasvals
